@@ -308,7 +308,7 @@ func (ufs *Ufs) Attach(req *SrvReq) {
 	// You can think of the ufs.Root as a 'chroot' of a sort.
 	// clients attach are not allowed to go outside the
 	// directory represented by ufs.Root
-	fid.path = filepath.Join(ufs.Root, tc.Aname)
+	fid.path = filepath.Join(ufs.Root, filepath.Join("/", tc.Aname))
 
 	req.Fid.Aux = fid
 	err := fid.stat()
@@ -323,7 +323,24 @@ func (ufs *Ufs) Attach(req *SrvReq) {
 
 func (*Ufs) Flush(req *SrvReq) {}
 
-func (*Ufs) Walk(req *SrvReq) {
+// confine returns the path that name designates relative to the directory
+// dir, without ever leaving the exported tree: dotdot at the root stays at
+// the root. The second result is false for names that can't be confined.
+func (ufs *Ufs) confine(dir, name string) (string, bool) {
+	root := filepath.Clean(ufs.Root)
+	p := filepath.Join(dir, name)
+	if p == root || root == "/" || strings.HasPrefix(p, root+"/") {
+		return p, true
+	}
+
+	if name == ".." {
+		return root, true
+	}
+
+	return "", false
+}
+
+func (ufs *Ufs) Walk(req *SrvReq) {
 	fid := ufsfid(req)
 	if fid == nil {
 		return
@@ -348,9 +365,13 @@ func (*Ufs) Walk(req *SrvReq) {
 	path := fid.path
 	i := 0
 	for ; i < len(tc.Wname); i++ {
-		p := path + "/" + tc.Wname[i]
-		st, err := os.Lstat(p)
-		if err != nil {
+		p, ok := ufs.confine(path, tc.Wname[i])
+		var st os.FileInfo
+		var err error
+		if ok {
+			st, err = os.Lstat(p)
+		}
+		if !ok || err != nil {
 			if i == 0 {
 				req.RespondError(Enoent)
 				return
@@ -399,7 +420,7 @@ func (*Ufs) Open(req *SrvReq) {
 	req.RespondRopen(dir2Qid(fid.st), 0)
 }
 
-func (*Ufs) Create(req *SrvReq) {
+func (ufs *Ufs) Create(req *SrvReq) {
 	fid := ufsfid(req)
 	if fid == nil {
 		return
@@ -414,7 +435,12 @@ func (*Ufs) Create(req *SrvReq) {
 		return
 	}
 
-	path := fid.path + "/" + tc.Name
+	path, ok := ufs.confine(fid.path, tc.Name)
+	if !ok || tc.Name == ".." {
+		req.RespondError(Eperm)
+		return
+	}
+
 	var e error
 	var file *os.File
 	switch {
@@ -755,6 +781,11 @@ func (u *Ufs) Wstat(req *SrvReq) {
 			destpath = filepath.Join(fiddir, dir.Name)
 			fmt.Printf("rel  results in %s\n", destpath)
 		}
+		if _, ok := u.confine(destpath, "."); !ok {
+			req.RespondError(Eperm)
+			return
+		}
+
 		err := syscall.Rename(fid.path, destpath)
 		fmt.Printf("rename %s to %s gets %v\n", fid.path, destpath, err)
 		if err != nil {
